@@ -61,18 +61,36 @@ def _create_or_update_state(first_key: str, second_key: str, hash_: str) -> None
         session.commit()
 
 
+def _delete_states_of_other_nodes(first_key: str, second_keys: set[str]) -> None:
+    """Delete the states of a task which do not belong to the given nodes."""
+    with DatabaseSession() as session:
+        for state_in_db in session.query(State).filter(State.task == first_key):
+            if state_in_db.node not in second_keys:
+                session.delete(state_in_db)
+        session.commit()
+
+
 def update_states_in_database(session: Session, task_signature: str) -> None:
     """Update the state for each node of a task in the database.
 
     A dry-run only announces what would happen and records nothing, not even for tasks
     which are persisted.
 
+    States of nodes which are no longer dependencies or products of the task are deleted.
+    Otherwise, a dependency which is removed from the task and added again later with
+    the content recorded long ago would be regarded as unchanged although the last
+    execution of the task did not use it.
+
     """
     if session.config.get("dry_run", False):
         return
 
-    for name in node_and_neighbors(session.dag, task_signature):
-        node = session.dag.nodes[name].get("task") or session.dag.nodes[name]["node"]
+    nodes = [
+        session.dag.nodes[name].get("task") or session.dag.nodes[name]["node"]
+        for name in node_and_neighbors(session.dag, task_signature)
+    ]
+    _delete_states_of_other_nodes(task_signature, {node.signature for node in nodes})
+    for node in nodes:
         hash_ = node.state()
         _create_or_update_state(task_signature, node.signature, hash_)
 
